@@ -189,3 +189,39 @@ From V Require Import Model.Wrapper.
 Definition ok_wrapper (c : list param * list wevent) : bool :=
   list_eqb wevent_eqb (wrapper 0 (fst c)) (snd c).
 Definition mismatches_wrapper := mismatches ok_wrapper.
+
+(** C18 *)
+From V Require Import Model.Security.
+
+Definition key_map (m : list (string * string)) (s : string) : string :=
+  match find (fun p => String.eqb (fst p) s) m with Some p => snd p | None => s end.
+
+Fixpoint insert_ctx (p : string * list string) (l : list (string * list string)) :=
+  match l with
+  | [] => [p]
+  | q :: r => match String.compare (fst p) (fst q) with Gt => q :: insert_ctx p r | _ => p :: l end
+  end.
+Definition sort_ctx (l : list (string * list string)) := fold_right insert_ctx [] l.
+
+Definition ctx_entry_eqb (a b : string * list string) : bool :=
+  String.eqb (fst a) (fst b) && list_eqb String.eqb (snd a) (snd b).
+
+(** observed = the (constant, scopes) pairs the stub handler found in the request context, sorted by constant *)
+Definition ok_published (c : list (string * string) * list requirement * option (list requirement) * list (string * list string)) : bool :=
+  let '(km, global, op, obs) := c in
+  list_eqb ctx_entry_eqb (sort_ctx (published (key_map km) global op)) obs.
+
+Definition mismatches_published := mismatches ok_published.
+
+(** providers: observed = the request after Intercept *)
+Definition hdrs_eqb (a b : list (string * list string)) : bool :=
+  list_eqb ctx_entry_eqb (sort_ctx a) (sort_ctx b).
+
+Definition ok_intercept (c : provider * request * request) : bool :=
+  let '(p, r, obs) := c in
+  let r' := intercept p r in
+  hdrs_eqb (headers r') (headers obs)
+  && list_eqb pair_eqb (sort_pairs (query r')) (sort_pairs (query obs))
+  && list_eqb pair_eqb (cookies r') (cookies obs).
+
+Definition mismatches_intercept := mismatches ok_intercept.
